@@ -159,6 +159,7 @@ func run(c *lib.Ctx) {
 		c.RequireEvents("keys_compared", 200)
 		c.RequireEvents("seed_compared", 50)
 		c.RequireEvents("restarts", 3)
+		c.RequireEvents("setpasswd_with_no_password_in_memory", 2)
 	}
 }
 
